@@ -1,0 +1,6 @@
+//go:build !verif
+
+package actionlint
+
+// verifSched is a no-op unless the build tag "verif" is given (see verif_hooks.go).
+func verifSched(string) {}
